@@ -191,6 +191,7 @@ func ConvertToAssignments(stmt *gorm.Statement) (set clause.Set) {
 	switch value := updatingValue.Interface().(type) {
 	case map[string]interface{}:
 		set = make([]clause.Assignment, 0, len(value))
+		assigned := map[string]bool{}
 
 		keys := make([]string, 0, len(value))
 		for k := range value {
@@ -209,6 +210,7 @@ func ConvertToAssignments(stmt *gorm.Statement) (set clause.Set) {
 					if field.DBName != "" {
 						if v, ok := selectColumns[field.DBName]; (ok && v) || (!ok && !restricted) {
 							set = append(set, clause.Assignment{Column: clause.Column{Name: field.DBName}, Value: kv})
+							assigned[field.DBName] = true
 							assignValue(field, value[k])
 						}
 					} else if v, ok := selectColumns[field.Name]; (ok && v) || (!ok && !restricted) {
@@ -226,7 +228,7 @@ func ConvertToAssignments(stmt *gorm.Statement) (set clause.Set) {
 		if !stmt.SkipHooks && stmt.Schema != nil {
 			for _, dbName := range stmt.Schema.DBNames {
 				field := stmt.Schema.LookUpField(dbName)
-				if field.AutoUpdateTime > 0 && value[field.Name] == nil && value[field.DBName] == nil {
+				if field.AutoUpdateTime > 0 && !assigned[field.DBName] {
 					if v, ok := selectColumns[field.DBName]; (ok && v) || !ok {
 						now := stmt.DB.NowFunc()
 						assignValue(field, now)
